@@ -208,6 +208,11 @@ func (c *connection) onProcess(onConnect OnConnect, onRequest OnRequest) (proces
 				}
 			}
 			c.unlock(connecting)
+			// the poller may have closed the connection after the check above and failed to
+			// lock connecting, expecting this task to help: check again now that it is unlocked.
+			if !c.IsActive() {
+				c.onDisconnect()
+			}
 		}
 	START:
 		// The `onRequest` must be executed at least once if conn have any readable data,
